@@ -62,6 +62,12 @@ type modelCfg struct {
 	// Large: a rule set beyond the size thresholds of library code (e.g. sort.Slice is an insertion
 	// sort, stable by accident, up to 12 elements); run under the default schedule only
 	Large bool `json:"large,omitempty"`
+	// SameDc: the second call (Twice) is made on the builder and data context of the first one, the
+	// new observers and counters being added to it (otherwise every call gets a data context of its own)
+	SameDc bool `json:"same_dc,omitempty"`
+	// Sched: explore this configuration under every schedule with that many preemptions even in a
+	// check whose other configurations are sequential (a rule body that starts goroutines itself)
+	Sched int `json:"sched,omitempty"`
 }
 
 type modelState struct {
@@ -224,6 +230,7 @@ func modelScenarioWith(cfg modelCfg, prebuilt *builder.RuleBuilder) *hx.Scenario
 		}
 	}
 	var livePool *engine.GenginePool
+	var lastRB *builder.RuleBuilder
 	call := func(g *engine.Gengine, l *gx.Log, cnt *Counters) (error, interface{}) {
 		stag := &engine.Stag{}
 		inj := map[string]interface{}{"cnt": cnt, "stag": stag}
@@ -242,7 +249,21 @@ func modelScenarioWith(cfg modelCfg, prebuilt *builder.RuleBuilder) *hx.Scenario
 			vsched.WaitOthersDone()
 			return err, pan
 		}
-		rb := gx.Fresh(src, l, inj)
+		var rb *builder.RuleBuilder
+		if cfg.SameDc && lastRB != nil {
+			rb = lastRB
+			return gx.CallGuarded(func() error {
+				rb.Dc.Add("ev", l.Ev)
+				rb.Dc.Add("ev3", l.Ev3)
+				rb.Dc.Add("boom", l.Boom)
+				for k, v := range inj {
+					rb.Dc.Add(k, v)
+				}
+				return m.Call(g, rb, gx.Params{B: cfg.B, N: cfg.N, M: cfg.M, Names: cfg.Names, Stag: stag})
+			})
+		}
+		rb = gx.Fresh(src, l, inj)
+		lastRB = rb
 		return gx.CallGuarded(func() error {
 			return m.Call(g, rb, gx.Params{B: cfg.B, N: cfg.N, M: cfg.M, Names: cfg.Names, Stag: stag})
 		})
@@ -262,6 +283,7 @@ func modelScenarioWith(cfg modelCfg, prebuilt *builder.RuleBuilder) *hx.Scenario
 		Body: func(s interface{}) {
 			x := s.(*st)
 			livePool = nil
+			lastRB = nil
 			g := engine.NewGengine()
 			x.err, x.pan = call(g, x.log, x.cnt)
 			x.log.Ev("ret", 0) // everything the call started must be over by now
